@@ -30,11 +30,19 @@ type caseDesc struct {
 	Base      uint32 `json:"base"` // the base value the program computes
 	Cond      int    `json:"cond"`
 	Move      bool   `json:"move,omitempty"` // large memory that moves on every grow
+	DeclMax   bool   `json:"declmax,omitempty"` // unshared memory with a declared maximum (min < max)
+	CapMax    string `json:"capmax,omitempty"`  // "" | "on" (WithMemoryCapacityFromMax) | "shared-cache" (compiled by a runtime with it, run by one without, same CompilationCache)
 }
 
 func (c caseDesc) String() string {
 	if c.Move {
 		c.Mem += "(moving)"
+	}
+	if c.DeclMax {
+		c.Mem += "(max declared)"
+	}
+	if c.CapMax != "" {
+		c.Mem += "(capacity-from-max:" + c.CapMax + ")"
 	}
 	return fmt.Sprintf("%s mem=%s pages=%d %s off=%#x form=%s base=%#x placement=%s cond=%d", c.Engine, c.Mem, c.Pages, c.Op, c.Off, c.Form, c.Base, c.Placement, c.Cond)
 }
@@ -45,7 +53,9 @@ type batch struct {
 	Pages  uint32    `json:"pages"`
 	Op     string    `json:"op"`
 	Offs   []uint64  `json:"offs"`
-	Level  int       `json:"level"` // 0 = full product, 1 = reduced placements/forms, 2 = all placements x reduced forms
+	Level  int       `json:"level"` // 0 = full product, 1 = reduced placements/forms, 2 = all placements x reduced forms, 3 = call/grow placements x reduced forms
+	DeclMax bool     `json:"declmax,omitempty"`
+	CapMax string    `json:"capmax,omitempty"`
 	Move   bool      `json:"move,omitempty"` // large memories: move on every grow (small ones always do)
 	FewConst bool    `json:"fewconst,omitempty"` // quick tier: constant-base functions only for the decisive bases
 	Prune  bool      `json:"prune,omitempty"` // quick tier: do not execute cases in which an earlier access traps before the access under test
@@ -57,7 +67,7 @@ func (b *batch) huge() bool { return b.Pages > 64 }
 func (b *batch) sizes(pl *placement) (pre, final uint64) {
 	pre = uint64(b.Pages) * wasmPage
 	final = pre
-	if pl.Grows && b.Pages < maxPagesOf(b.Kind, b.Pages) {
+	if pl.Grows && b.Pages < maxPagesOf(b.Kind, b.Pages, b.DeclMax) {
 		final += wasmPage
 	}
 	return
@@ -69,9 +79,20 @@ var reducedForms = []form{fParam, fConst}
 func (b *batch) specs() []*fnSpec {
 	op := opByName(b.Op)
 	var pls []*placement
+	// the zero-length-touch placements are generated for empty memories and for the capacity/maximum slice
+	touch0 := b.Pages == 0 || b.Level == 3
 	switch {
 	case op.bulk():
 		for _, n := range bulkPlacements {
+			pls = append(pls, placementByName(n))
+		}
+		if touch0 {
+			for _, n := range bulkTouch0Placements {
+				pls = append(pls, placementByName(n))
+			}
+		}
+	case b.Level == 3:
+		for _, n := range capPlacements {
 			pls = append(pls, placementByName(n))
 		}
 	case b.Level == 1:
@@ -79,7 +100,11 @@ func (b *batch) specs() []*fnSpec {
 			pls = append(pls, placementByName(n))
 		}
 	default:
-		pls = placements
+		for _, pl := range placements {
+			if !pl.Touch0 || touch0 {
+				pls = append(pls, pl)
+			}
+		}
 	}
 	forms := fullForms
 	if b.Level >= 1 {
@@ -133,7 +158,7 @@ type oneCase struct {
 
 func (b *batch) desc(c *oneCase) caseDesc {
 	return caseDesc{Engine: b.Engine, Mem: memKindNames[b.Kind], Pages: b.Pages, Op: b.Op, Off: c.spec.Off, Form: c.spec.Form.String(),
-		Placement: c.spec.Pl.Name, Base: c.eff, Cond: c.cond, Move: b.Move}
+		Placement: c.spec.Pl.Name, Base: c.eff, Cond: c.cond, Move: b.Move, DeclMax: b.DeclMax, CapMax: b.CapMax}
 }
 
 // cases enumerates the static, deterministic case list of a batch.
@@ -176,19 +201,24 @@ func (b *batch) cases(specs []*fnSpec) []*oneCase {
 
 var runtimes = map[string]wazero.Runtime{}
 
-func runtimeFor(engine string) wazero.Runtime {
-	if r, ok := runtimes[engine]; ok {
-		return r
-	}
+func engineConfig(engine string) wazero.RuntimeConfig {
 	var cfg wazero.RuntimeConfig
 	if engine == "compiler" {
 		cfg = wazero.NewRuntimeConfigCompiler()
 	} else {
 		cfg = wazero.NewRuntimeConfigInterpreter()
 	}
-	cfg = cfg.WithCoreFeatures(api.CoreFeaturesV2 | experimental.CoreFeaturesThreads)
-	r := wazero.NewRuntimeWithConfig(context.Background(), cfg)
-	runtimes[engine] = r
+	return cfg.WithCoreFeatures(api.CoreFeaturesV2 | experimental.CoreFeaturesThreads)
+}
+
+// runtimeFor returns the (cached) runtime for an engine, optionally with WithMemoryCapacityFromMax(true).
+func runtimeFor(engine string, capMax bool) wazero.Runtime {
+	key := fmt.Sprintf("%s/%v", engine, capMax)
+	if r, ok := runtimes[key]; ok {
+		return r
+	}
+	r := wazero.NewRuntimeWithConfig(context.Background(), engineConfig(engine).WithMemoryCapacityFromMax(capMax))
+	runtimes[key] = r
 	return r
 }
 
@@ -233,7 +263,7 @@ func (in *inst) open() {
 	if in.gm.size != size {
 		harnessDie("initial size %d, want %d", in.gm.size, size)
 	}
-	in.m = &memModel{size: size, maxPages: uint64(maxPagesOf(in.b.Kind, in.b.Pages)), shared: in.shared(), small: !in.b.huge()}
+	in.m = &memModel{size: size, maxPages: uint64(maxPagesOf(in.b.Kind, in.b.Pages, in.b.DeclMax)), shared: in.shared(), small: !in.b.huge()}
 	if in.m.small {
 		real := in.gm.slice()
 		paint(real, 0)
@@ -420,11 +450,26 @@ func runItem(b *batch, from int, prog *progress, itemIdx int, touchEvery int) *i
 		return res
 	}
 	ctx := context.Background()
-	rt := runtimeFor(b.Engine)
 	t0 := time.Now()
-	bin := buildModule(b.Kind, b.Pages, specs)
+	bin := buildModule(b.Kind, b.Pages, b.DeclMax, specs)
 	res.GenMs = time.Since(t0).Milliseconds()
 	t0 = time.Now()
+	var rt wazero.Runtime
+	if b.CapMax == "shared-cache" {
+		// compiled by a runtime WITH capacity-from-max, executed by a runtime WITHOUT it; both share one
+		// CompilationCache, whose key does not depend on the capacity setting, so the second runtime reuses the code.
+		cache := wazero.NewCompilationCache()
+		defer cache.Close(ctx)
+		r1 := wazero.NewRuntimeWithConfig(ctx, engineConfig(b.Engine).WithMemoryCapacityFromMax(true).WithCompilationCache(cache))
+		defer r1.Close(ctx)
+		if _, err := r1.CompileModule(ctx, bin); err != nil {
+			harnessDie("generated module rejected by the first runtime (%s %s): %v", b.Engine, b.Op, err)
+		}
+		rt = wazero.NewRuntimeWithConfig(ctx, engineConfig(b.Engine).WithCompilationCache(cache))
+		defer rt.Close(ctx)
+	} else {
+		rt = runtimeFor(b.Engine, b.CapMax == "on")
+	}
 	code, err := rt.CompileModule(ctx, bin)
 	res.CompMs = time.Since(t0).Milliseconds()
 	t0 = time.Now()
@@ -435,7 +480,7 @@ func runItem(b *batch, from int, prog *progress, itemIdx int, touchEvery int) *i
 	defer code.Close(ctx)
 	in := &inst{b: b, rt: rt, code: code}
 	if b.Kind == mkImported || b.Kind == mkImportedShared {
-		if in.memCode, err = rt.CompileModule(ctx, buildMemModule(b.Kind, b.Pages)); err != nil {
+		if in.memCode, err = rt.CompileModule(ctx, buildMemModule(b.Kind, b.Pages, b.DeclMax)); err != nil {
 			harnessDie("memory module rejected: %v", err)
 		}
 		defer in.memCode.Close(ctx)
